@@ -535,6 +535,8 @@ static uint64_t enumerate(const Prop &p, Ctx &ctx, Case base, int bound, uint64_
   complete = false;
   for (;;)
   {
+    if (ctx.over_budget())
+      return n; // incomplete (reported as capped), never a violation
     base.set("sched", "k3;prefix:" + hex(prefix));
     Verdict v = eval_fixed(p, ctx, base);
     n++;
@@ -654,7 +656,7 @@ void fixed_sched(Ctx &ctx, SchedProp which, const char *pid)
     else
       capped++;
     ctx.stats.samples.push_back(c.text() + "systematic=all schedules with <= " + std::to_string(b) + " preemptions\nexecutions=" + std::to_string(n) + "\ncomplete=" + (complete ? "1" : "0") + "\n");
-    if (ctx.stats.violations)
+    if (ctx.stats.violations || ctx.over_budget())
       break;
   }
   ctx.stats.info["n:systematic_executions"] = std::to_string(total);
